@@ -68,11 +68,17 @@ def holds(dialect, column, value):
     if kind == "bigint":
         return -2 ** 63 <= value <= 2 ** 63 - 1
     if kind in ("decimal", "number"):
-        if not column["size"]:
-            return True
+        # a declared precision the dialect has (Oracle number and Transact-SQL decimal: 38 digits, DB2 decimal: 31), with
+        # enough digits before the decimal point
+        if not column["size"] or not 1 <= column["size"][0] <= MAX_PRECISION[dialect]:
+            return False
         digits = column["size"][0] - (column["size"][1] if len(column["size"]) > 1 else 0)
-        return abs(value) <= 10 ** min(digits, 400) - 1 if digits < 400 else True
+        return abs(value) <= 10 ** digits - 1
     return False
+
+
+MAX_PRECISION = {"ansi": 38, "pl": 38, "tsql": 38, "db2": 31}
+SIZED_TYPES = ("decimal", "number", "varchar", "varchar2", "char")
 
 
 SPELLINGS = {"lower": str.lower, "UPPER": str.upper, "Capitalised": str.capitalize}
@@ -132,6 +138,8 @@ def _job_spelled(vec):
         if column["notnull"] != (not field["empty"]):
             problems.append("%s: is %s but the field %s be empty" % (where, "NOT NULL" if column["notnull"] else "nullable",
                                                                       "may" if field["empty"] else "must not"))
+        if column["size"] and column["type"] not in SIZED_TYPES:
+            problems.append("%s: the %s type of the dialect takes no size" % (where, column["type"]))
         if field["t"] == "Integer" and field.get("open", "none") != "none":
             # no limit on one side: the property asks nothing of the type; the model names the dialect's default integer type
             if column["type"] != predicted["type"]:
